@@ -818,6 +818,11 @@ func runC14(r *fw.Run) {
 			break
 		}
 	}
+	for k := 0; k < r.Pick(12, 200) && r.ViolationCount() <= 12; k++ {
+		r.Journal(0, map[string]interface{}{"what": "re-bind and re-serve while the previous Shutdown is still returning", "k": k})
+		c14RebindDuringShutdown(r, k)
+		r.Done(0)
+	}
 	r.Note("timing: before-serve part %.1fs", time.Since(tA).Seconds())
 	// (B) real sockets
 	for ci, cf := range []struct {
@@ -842,6 +847,83 @@ func runC14(r *fw.Run) {
 			r.Done(0)
 		}
 	}
+}
+
+// c14RebindDuringShutdown: Shutdown is called on another goroutine and its listener's Close takes a while to return; the
+// caller binds and serves the next period as soon as the first serving call has returned, i.e. possibly while that Shutdown
+// is still on its way out. The new period must be unaffected by the old Shutdown: listener in place, clients served, ended
+// only by its own Shutdown.
+func c14RebindDuringShutdown(r *fw.Run, k int) {
+	cse := map[string]interface{}{"what": "re-bind and re-serve while the previous Shutdown is still returning", "k": k}
+	fail := func(class, format string, a ...interface{}) {
+		r.Violation("C14 "+class, fmt.Sprintf("re-serve during a slow Shutdown: ")+fmt.Sprintf(format, a...), cse)
+	}
+	svc, err := varlink.NewService("Verif", "Rebind", "1", "u")
+	if err != nil {
+		return
+	}
+	L1 := newCtlListener(r)
+	L1.closeLinger = time.Duration(20+10*(k%4)) * time.Millisecond
+	svc.VerifSetListener(L1)
+	done1 := make(chan error, 1)
+	go func() { done1 <- svc.DoListen(context.Background(), 0) }()
+	if !L1.WaitParked(lifeBound) {
+		r.Inconclusive("rebind: accept loop did not reach Accept")
+		L1.Close()
+		return
+	}
+	sdDone := make(chan struct{})
+	go func() { svc.Shutdown(); close(sdDone) }()
+	select {
+	case <-done1:
+	case <-time.After(20 * time.Second):
+		fail("serve-never-returns", "first period: serving call did not return within 20 s of Shutdown")
+		return
+	}
+	// next period at once, on a fresh listener
+	L2 := newCtlListener(r)
+	svc.VerifSetListener(L2)
+	done2 := make(chan error, 1)
+	go func() { done2 <- svc.DoListen(context.Background(), 0) }()
+	<-sdDone // the first Shutdown has returned by now at the latest
+	time.Sleep(time.Millisecond)
+	select {
+	case e := <-done2:
+		fail("period-ended-by-an-earlier-shutdown", "second period: the serving call returned %v although Shutdown was not called for it", e)
+		return
+	default:
+	}
+	if l, err := svc.GetListener(); err != nil || l != net.Listener(L2) {
+		fail("period-ended-by-an-earlier-shutdown", "second period: GetListener returns (%v, %v), the period's listener was installed before serving began", l, err)
+	}
+	lr := &lifeRun{r: r, h: &c14Hist{}, svc: svc, L: L2}
+	if L2.WaitParked(lifeBound) {
+		if c := lr.connect(true); c != nil {
+			if err := roundTrip(c.client, lifeBound); err != nil {
+				fail("accepted-connection-not-served", "second period: %v", err)
+			}
+			c.client.Close()
+			lr.waitClosed(c, "client closed it")
+		}
+	} else {
+		fail("accept-not-reached", "second period: the accept loop is not waiting in Accept")
+	}
+	for _, v := range lr.viol {
+		parts := strings.SplitN(v, "\x00", 2)
+		fail(parts[0], "%s", parts[1])
+	}
+	svc.Shutdown()
+	select {
+	case e := <-done2:
+		if e != nil {
+			fail("shutdown-returned-error", "second period returned %v after its Shutdown", e)
+		}
+	case <-time.After(20 * time.Second):
+		fail("serve-never-returns", "second period: serving call did not return within 20 s of its own Shutdown (listener closed: %v)", L2.State().closed)
+		L2.Close()
+	}
+	r.Count("rebind_during_shutdown_runs", 1)
+	r.Case(fw.Hash("rebind", fmt.Sprint(k%4)), true)
 }
 
 // c14TwoServices: two Service objects in one process, both given the address "tcp:127.0.0.1:0" (each gets a port of its own)
@@ -1341,7 +1423,7 @@ func replayC14(r *fw.Run, raw json.RawMessage) {
 func init() {
 	fw.Register(&fw.Engine{
 		ID: "C14", Level: "exploration",
-		Rule: "(A) histories on a controlled net.Listener installed through the white-box accessor, DoListen running on it: every valid prefix over {connect, call, call followed in the same segment by the start of a frame that is never completed, close, abort mid-frame, handler fails, cancel serving context, second Bind, second Listen} up to length 4 (quick) / 7 (thorough), each ended by Shutdown at each of 4 placements - while Accept is parked, inside SetDeadline (before accept), inside Accept just before it returns a connection (between accept and handler start), from another goroutine racing a new connection - plus seeded random histories of length 4..10; connections are in-memory pipes or unix socketpairs. Oracle on event order only: every accepted connection is closed by the service exactly when its end is reached (client close, abort, handler error, context cancel) and counted out (active count 0 at the end); Close was called on the installed listener by the time Shutdown returned; a connection offered after Shutdown returned is never served; the serving call does not return while accepted connections are open, returns nil once they have ended (refuted logically when the loop is parked in Accept on a listener nobody closed), and the same object then binds, serves a call and shuts down again; second Bind/Listen during serving return an error and the first serving call still answers. (B) real unix/TCP sockets, Listen and Bind+DoListen: clients loop dial+GetInfo while a controller cycles serve -> Shutdown (with idle, mid-frame and used connections held across it) -> wait -> serve again on the same address; successful calls, binds and shutdowns are recorded with call/return stamps from one logical clock and checked with porcupine against the model 'ok only while bound'. non-trivial = history with >= 1 step before the shutdown; distinct by hash of the history. Further placements: Shutdown called by a handler while it answers a call; Shutdown before, and racing with, the start of the serving call (60 / 600 runs); every third history re-serves the object a third time through Listen. Three consecutive periods of one object, each with a context of its own; the context of the previous period is cancelled (or its deadline passes) while the next period serves: that period keeps answering until its own Shutdown. Two Service objects in one process given the same address string tcp:127.0.0.1:0 (or unix paths of their own): one is served, shut down and served again while the other keeps serving; each answers on its own endpoint.",
+		Rule: "(A) histories on a controlled net.Listener installed through the white-box accessor, DoListen running on it: every valid prefix over {connect, call, call followed in the same segment by the start of a frame that is never completed, close, abort mid-frame, handler fails, cancel serving context, second Bind, second Listen} up to length 4 (quick) / 7 (thorough), each ended by Shutdown at each of 4 placements - while Accept is parked, inside SetDeadline (before accept), inside Accept just before it returns a connection (between accept and handler start), from another goroutine racing a new connection - plus seeded random histories of length 4..10; connections are in-memory pipes or unix socketpairs. Oracle on event order only: every accepted connection is closed by the service exactly when its end is reached (client close, abort, handler error, context cancel) and counted out (active count 0 at the end); Close was called on the installed listener by the time Shutdown returned; a connection offered after Shutdown returned is never served; the serving call does not return while accepted connections are open, returns nil once they have ended (refuted logically when the loop is parked in Accept on a listener nobody closed), and the same object then binds, serves a call and shuts down again; second Bind/Listen during serving return an error and the first serving call still answers. (B) real unix/TCP sockets, Listen and Bind+DoListen: clients loop dial+GetInfo while a controller cycles serve -> Shutdown (with idle, mid-frame and used connections held across it) -> wait -> serve again on the same address; successful calls, binds and shutdowns are recorded with call/return stamps from one logical clock and checked with porcupine against the model 'ok only while bound'. non-trivial = history with >= 1 step before the shutdown; distinct by hash of the history. Further placements: Shutdown called by a handler while it answers a call; Shutdown before, and racing with, the start of the serving call (60 / 600 runs); every third history re-serves the object a third time through Listen. Three consecutive periods of one object, each with a context of its own; the context of the previous period is cancelled (or its deadline passes) while the next period serves: that period keeps answering until its own Shutdown. Two Service objects in one process given the same address string tcp:127.0.0.1:0 (or unix paths of their own): one is served, shut down and served again while the other keeps serving; each answers on its own endpoint. Re-bind and re-serve right after the serving call returned while the Shutdown that ended it (issued on another goroutine, listener Close lingering 20-50 ms) is still returning.",
 		Assumptions: []string{"bounded progress: 10 s for a single step of the accept loop or the release of a connection, 20 s for the serving call to return", "the 8 ms drain grace and the 3 ms late-connection window are one-sided (a violation observed inside them is real; none observed proves nothing beyond them)"},
 		Run:         runC14, Replay: replayC14, CrashIsViolation: true, MinEvals: 100,
 		QuickTimeout: 15 * time.Minute, ThoroughTimeout: 60 * time.Minute,
